@@ -3,6 +3,7 @@
     their axiom audit and non-vacuity examples. *)
 From Coq Require Import ZArith List Bool Lia.
 From Low Require Import Lib.Bits Lib.BitSeq Lib.Lex Lib.Bytes Model.Sigbits Spec.SigbitsSpec Spec.ShardRouteSpec
+  Spec.ShardSplitSpec
   Proofs.SigbitsShardChecker Proofs.SigbitsLcpAll Proofs.SigbitsShard Proofs.SigbitsShardRoute
   Proofs.SigbitsShardDomain Model.Sharding32 Proofs.Sharding32Proofs.
 Import ListNotations.
@@ -204,3 +205,28 @@ Example C17_int32_nonvacuous :
     = Some ([1; 3; 3; 3], [0; 1; 2; 3; 4]) /\
   idx_range32 0 4294967297 = [] /\ idx_range32 0 4 = idx_range 0 4 /\ idx_range 0 4 = [0; 1; 2].
 Proof. repeat split; vm_compute; reflexivity. Qed.
+
+(** Widening: the relation made a function.  On the property's domain ShardByPrefix returns
+    exactly what the naive recursive description [spec_ShardByPrefix] (Spec/ShardSplitSpec.v) says:
+    a key list larger than maxSize is cut into the maximal runs of keys that agree on the byte right
+    after the list's longest common prefix (a key ending there is a run of its own), and every run
+    is treated the same way; L is [zlen (lcp_all shard)], B the running key count.  The naive split
+    loses no key (its nesting-depth fuel [len(keys)+1] suffices).  With the theorems above, the
+    naive split therefore satisfies [shard_spec] and [route_spec]. *)
+Theorem C17_exact : forall keys maxSize,
+  keys <> [] -> keys_ok keys -> strict_asc keys -> 1 <= maxSize ->
+  ShardByPrefix keys maxSize = Some (spec_ShardByPrefix keys maxSize) /\
+  concat (split_spec (S (length keys)) maxSize keys) = keys.
+Proof. exact ShardByPrefix_exact. Qed.
+Print Assumptions C17_exact.
+
+Example C17_exact_nonvacuous :
+  let keys := [[0]; [97]; [97; 0]; [97; 98; 99; 100; 101; 102; 103; 104; 105; 1];
+               [97; 98; 99; 100; 101; 102; 103; 104; 105; 128]; [255]] in
+  runs 0 keys = [[[0]]; [[97]; [97; 0]; [97; 98; 99; 100; 101; 102; 103; 104; 105; 1];
+                          [97; 98; 99; 100; 101; 102; 103; 104; 105; 128]]; [[255]]] /\
+  split_spec 7 2 keys = [[[0]]; [[97]]; [[97; 0]];
+                         [[97; 98; 99; 100; 101; 102; 103; 104; 105; 1];
+                          [97; 98; 99; 100; 101; 102; 103; 104; 105; 128]]; [[255]]] /\
+  spec_ShardByPrefix keys 2 = ([1; 1; 2; 9; 1], [0; 1; 2; 3; 5; 6]).
+Proof. cbv zeta. repeat split; vm_compute; reflexivity. Qed.
